@@ -33,7 +33,7 @@ Definition DQ : N := 34%N.  Definition COMMA : N := 44%N.
 (* paths relative to the context directory                                                     *)
 Inductive comp :=
 | CDb | CDatasets | CHash | CPharmpy | CPending | CLock | CModels | CAnnot | CAnnotLock | CAnnotTmp
-| CLog | CLogLock | CSub | CCommon | CModelFile | CResults | CMetadata
+| CLog | CLogLock | CSub | CCommon | CModelFile | CResults | CMetadata | CResJson | CResCsv
 | CCsv (n : N)        (* dataN.csv  (in .datasets and, as index entry, in .datasets/.hash/<h>) *)
 | CDi (n : N)         (* dataN.datainfo *)
 | CKey (k : N)        (* <ModelHash> directory *)
@@ -46,7 +46,7 @@ Definition comp_eqb (a b : comp) : bool :=
   | CDb, CDb | CDatasets, CDatasets | CHash, CHash | CPharmpy, CPharmpy | CPending, CPending
   | CLock, CLock | CModels, CModels | CAnnot, CAnnot | CAnnotLock, CAnnotLock | CAnnotTmp, CAnnotTmp | CLog, CLog
   | CLogLock, CLogLock | CSub, CSub | CCommon, CCommon | CModelFile, CModelFile
-  | CResults, CResults | CMetadata, CMetadata => true
+  | CResults, CResults | CMetadata, CMetadata | CResJson, CResJson | CResCsv, CResCsv => true
   | CCsv x, CCsv y | CDi x, CDi y | CKey x, CKey y | CDh x, CDh y => N.eqb x y
   | CName x, CName y | COther x, COther y => str_eqb x y
   | _, _ => false
@@ -66,6 +66,8 @@ Definition T_CSV : N := 3000002%N.     (* [T_CSV; dataset hash] *)
 Definition T_DI : N := 3000003%N.      (* [T_DI; datainfo id; n]  datainfo JSON with path data<n>.csv *)
 Definition T_RES : N := 3000004%N.     (* [T_RES; results id] *)
 Definition T_META : N := 3000005%N.    (* [T_META; id] *)
+Definition T_TRES : N := 3000006%N.    (* [T_TRES; id]  tool results json of a context *)
+Definition T_TCSV : N := 3000007%N.    (* [T_TCSV; id]  tool results csv of a context *)
 
 (* [Torn c]: the file holds c, and c is what an interrupted write left behind (a strict prefix of
    the intended content, or old content plus a prefix for an append).  Readers cannot see the
@@ -689,6 +691,90 @@ Definition ctx_retrieve (name : str) : M (N * N * N * option content * str) :=
   end.
 
 (* ------------------------------------------------------------------------------------------ *)
+(* subcontexts (one level: ctx.create_subcontext(s) / ctx.get_subcontext(s)) and tool results     *)
+(* the directory of a context: the top level context or subcontexts/<s> *)
+Definition cdir (c : option str) : path := match c with None => [] | Some s => [CSub; CName s] end.
+Definition annot_path_at (cp : path) : path := cp ++ [CAnnot].
+Definition annot_lock_at (cp : path) : path := cp ++ [CAnnotLock].
+Definition annot_tmp_at (cp : path) : path := cp ++ [CAnnotTmp].
+Definition name_link_at (cp : path) (name : str) : path := cp ++ [CModels; CName name].
+Definition results_json (cp : path) : path := cp ++ [CResJson].
+Definition results_csv (cp : path) : path := cp ++ [CResCsv].
+
+(* LocalDirectoryContext.__init__ of subcontexts/<s>: the model database, log.csv and common_options
+   belong to the top level context *)
+Definition sub_init (s : str) : M unit :=
+  let cp := cdir (Some s) in
+  f <- get ;;
+  (if is_dir f cp then ret tt else mkdir_p cp) ;;
+  f <- get ;;
+  (if is_dir f (cp ++ [CSub]) then ret tt else mkdir1 (cp ++ [CSub]) false) ;;
+  mkdir_p [CDb] ;;
+  f <- get ;;
+  (if is_file f (annot_path_at cp) then ret tt else touch (annot_path_at cp)) ;;
+  mkdir1 (cp ++ [CModels]) true.
+
+Definition store_key_at (cp : path) (name : str) (K : N) : M unit :=
+  f <- get ;;
+  if path_exists f (name_link_at cp name) then ret tt
+  else if exists_ f (key_dir K) then
+    emit (Symlink (key_dir K) (name_link_at cp name)) ;;
+    if exists_ f (name_link_at cp name) then fail EFileExists
+    else if parent_ok f (name_link_at cp name) then ret tt else fail EFileNotFound
+  else ret tt.
+
+Definition store_annotation_at (cp : path) (name a : str) : M unit :=
+  lock (annot_lock_at cp) ;;
+  c <- read_file (annot_path_at cp) ;;
+  write_file (annot_tmp_at cp) (annot_store c name a) ;;
+  rename_file (annot_tmp_at cp) (annot_path_at cp).
+
+Definition retrieve_annotation_at (cp : path) (name : str) : M str :=
+  lock (annot_lock_at cp) ;;
+  c <- read_file (annot_path_at cp) ;;
+  match annot_retrieve c name with
+  | AFound a => ret a
+  | AMissing => fail EKeyError
+  | AIndexError => fail EIndexError
+  end.
+
+Definition resolve_name_at (cp : path) (f : fs) (name : str) : option N :=
+  match lookup f (name_link_at cp name) with
+  | Some (Link [CDb; CKey K]) => Some K
+  | _ => None
+  end.
+
+(* Context._store_model / _retrieve_me of a subcontext *)
+Definition sub_store (s : str) (m : mdl) : M unit :=
+  transaction (m_key m) (store_model_entry m) ;;
+  store_key_at (cdir (Some s)) (m_name m) (m_key m) ;;
+  store_annotation_at (cdir (Some s)) (m_name m) (m_desc m).
+
+Definition sub_retrieve (s : str) (name : str) : M (N * N * N * option content * str) :=
+  f <- get ;;
+  match resolve_name_at (cdir (Some s)) f name with
+  | None => fail EKeyError
+  | Some K =>
+      snapshot K (ret tt) ;;
+      e <- db_retrieve_model_entry K ;;
+      a <- retrieve_annotation_at (cdir (Some s)) name ;;
+      ret (e, a)
+  end.
+
+(* Context.store_results(res): results.json, then results.csv; no lock, written in place *)
+Definition store_results (c : option str) (id : N) : M unit :=
+  write_file (results_json (cdir c)) [T_TRES; id] ;;
+  write_file (results_csv (cdir c)) [T_TCSV; id].
+
+(* Context.retrieve_results(): read_results(results.json) *)
+Definition retrieve_results (c : option str) : M N :=
+  r <- read_file (results_json (cdir c)) ;;
+  match r with
+  | [t; id] => if N.eqb t T_TRES then ret id else fail ECorrupt
+  | _ => fail ECorrupt       (* json.JSONDecodeError on a cut file *)
+  end.
+
+(* ------------------------------------------------------------------------------------------ *)
 (* workloads                                                                                   *)
 Inductive witem :=
 | WInit                                   (* LocalDirectoryContext(name, ref=...) *)
@@ -700,11 +786,17 @@ Inductive witem :=
 | WRetrieve (name : str)                  (* ctx.retrieve_model_entry(name) *)
 | WDbRetrieve (K : N)                     (* ctx.model_database.retrieve_model(key) *)
 | WGetAnnot (name : str)                  (* ctx.retrieve_annotation(name) *)
-| WGetLog.                                (* ctx.retrieve_log() *)
+| WGetLog                                 (* ctx.retrieve_log() *)
+| WSubInit (s : str)                      (* ctx.create_subcontext(s) / ctx.get_subcontext(s) *)
+| WSubStore (s : str) (m : mdl)           (* sub.store_model_entry(me) (store_final_model_entry / store_input_model_entry
+                                             are the same program with the names 'final' / 'input') *)
+| WSubRetrieve (s : str) (name : str)     (* sub.retrieve_model_entry(name) *)
+| WResults (c : option str) (id : N)      (* context.store_results(res), top level (None) or subcontext *)
+| WGetResults (c : option str).           (* context.retrieve_results() *)
 
 (* the key whose transaction an item runs (None: the item runs no transaction) *)
 Definition item_key (i : witem) : option N :=
-  match i with WStore m | WDbStore m | WMeta m _ => Some (m_key m) | _ => None end.
+  match i with WStore m | WDbStore m | WMeta m _ | WSubStore _ m => Some (m_key m) | _ => None end.
 
 Definition forget {A} (m : M A) : M unit := m ;; ret tt.
 
@@ -720,6 +812,11 @@ Definition item_prog (i : witem) : M unit :=
   | WDbRetrieve K => forget (db_retrieve_model K)
   | WGetAnnot name => forget (retrieve_annotation name)
   | WGetLog => forget retrieve_log
+  | WSubInit s => sub_init s
+  | WSubStore s m => sub_store s m
+  | WSubRetrieve s name => forget (sub_retrieve s name)
+  | WResults c id => store_results c id
+  | WGetResults c => forget (retrieve_results c)
   end.
 
 Definition item_ops (i : witem) (f : fs) : list op := fst (item_prog i f).
